@@ -1,5 +1,6 @@
 import ActixNet.Lemmas.SrvLog
 import ActixNet.Lemmas.SrvCons
+import ActixNet.Lemmas.SrvFuel
 /-!
 # C01 — each accepted connection reaches exactly one worker, with its listener's token
 
@@ -121,6 +122,23 @@ theorem accepted_carries_listener_token (cfg : Cfg) (ok : CfgOk cfg) (kinds : Li
     (hnf : (run cfg (init cfg kinds) ops).fault = none) (l : Nat) (c : Conn)
     (ha : (acceptSys (run cfg (init cfg kinds) ops) l).2 = .conn c) : c.2 = l :=
   (acceptSys_cj _ l (run_cinv ok ops _ (init_cinv cfg kinds)).2).2 c ha hnf
+
+/-- **Conservation, unconditionally.**  The accept thread never fails (`run_fault_none`, C08), so
+for every history every created connection is in exactly one place. -/
+theorem every_connection_in_exactly_one_place (cfg : Cfg) (ok : CfgOk cfg) (kinds : List Kind) (ops : List Op) (i : Nat) :
+    occurrences (run cfg (init cfg kinds) ops) i = if i < (run cfg (init cfg kinds) ops).nextConn then 1 else 0 :=
+  conservation cfg ok kinds ops (run_fault_none ok kinds ops) i
+
+/-- **Never twice, unconditionally.** -/
+theorem no_connection_dispatched_twice (cfg : Cfg) (ok : CfgOk cfg) (kinds : List Kind) (ops : List Op) (i : Nat) :
+    ids ((run cfg (init cfg kinds) ops).dispatched.map (·.1)) i ≤ 1 :=
+  never_dispatched_twice cfg ok kinds ops (run_fault_none ok kinds ops) i
+
+/-- **Never to another listener's service, unconditionally**: what `accept()` returns on listener `l`
+after any history carries token `l`. -/
+theorem accepted_token_is_listener (cfg : Cfg) (ok : CfgOk cfg) (kinds : List Kind) (ops : List Op) (l : Nat) (c : Conn)
+    (ha : (acceptSys (run cfg (init cfg kinds) ops) l).2 = .conn c) : c.2 = l :=
+  accepted_carries_listener_token cfg ok kinds ops (run_fault_none ok kinds ops) l c ha
 
 /-! ### Non-vacuity -/
 def demoCfg : Cfg := { limit := 2, nIdx := 2 }
